@@ -217,9 +217,9 @@ Section Steps.
     - (* setm *)
       setm_cases h v mem Iv; try (fold a in Hm1, Hm2, Hz, Hnum, Habs); try (fold a in Hlt).
       + eexists. eexists. eexists. split; [reflexivity|]. split; [exact Iv1|]. split; [reflexivity|].
-        cbn [op_spec o_ret o_dtor]. left. rewrite Hz, Habs. fin.
+        cbn [op_spec grows o_ret o_dtor]. left. rewrite Hz, Habs. fin.
       + eexists. eexists. eexists. split; [reflexivity|]. split; [exact Iv|]. split; [reflexivity|].
-        cbn [op_spec o_ret o_dtor]. right. fin.
+        cbn [op_spec grows o_ret o_dtor]. right. fin.
     - (* setn *)
       setm_cases h v n Iv; try (fold a in Hm1, Hm2, Hz, Hnum, Habs); try (fold a in Hlt).
       + change (A_SUCCESS =? 0) with true. cbv iota.
@@ -230,10 +230,10 @@ Section Steps.
         eexists. eexists. eexists. split; [reflexivity|].
         split; [apply vec_inv_with; [split; assumption|exact I3|cbn [v_arr]; fold a1; lia]|].
         split; [reflexivity|].
-        cbn [op_spec o_ret o_dtor with_arr v_arr]. left. rewrite Z3, M3, A3, Habs, Hz. fin.
+        cbn [op_spec grows o_ret o_dtor with_arr v_arr]. left. rewrite Z3, M3, A3, Habs, Hz. fin.
       + change (A_OMEMORY =? 0) with false. cbv iota.
         eexists. eexists. eexists. split; [reflexivity|]. split; [exact Iv|]. split; [reflexivity|].
-        cbn [op_spec o_ret o_dtor]. right. unfold same. fin.
+        cbn [op_spec grows o_ret o_dtor]. right. unfold same. fin.
     - (* setz *)
       rewrite (arr_dtor_down_spec a 0 dt I). cbn [bind].
       destruct (arr_setz_spec a z I) as [I3 [Z3 [N3 [M3 A3]]]]. cbv zeta in *.
@@ -241,24 +241,24 @@ Section Steps.
       eexists. eexists. eexists. split; [reflexivity|].
       split; [apply vec_inv_with; [exact Iv|exact I3|fold a; intro H0; rewrite M3, H0; reflexivity]|].
       split; [reflexivity|].
-      cbn [op_spec o_ret o_dtor with_arr v_arr]. rewrite A3, M3, Z3. cbn [N.to_nat skipn]. fin.
+      cbn [op_spec grows o_ret o_dtor with_arr v_arr]. rewrite A3, M3, Z3. cbn [N.to_nat skipn]. fin.
     - (* sort *)
       destruct (arr_sort_spec cmp a I) as [a3 [E3 [I3 [Z3 [M3 A3]]]]]. rewrite E3. cbn [bind].
       eexists. eexists. eexists. split; [reflexivity|].
       split; [apply vec_inv_with; [exact Iv|exact I3|fold a; lia]|]. split; [reflexivity|].
-      cbn [op_spec o_ret o_dtor with_arr v_arr]. fin.
+      cbn [op_spec grows o_ret o_dtor with_arr v_arr]. fin.
     - (* sort_fore *)
       destruct (arr_sort_fore_spec cmp le_trans le_total a I) as [a3 [E3 [I3 [Z3 [M3 [N3 [P3 A3]]]]]]].
       rewrite E3. cbn [bind].
       eexists. eexists. eexists. split; [reflexivity|].
       split; [apply vec_inv_with; [exact Iv|exact I3|fold a; lia]|]. split; [reflexivity|].
-      cbn [op_spec o_ret o_dtor with_arr v_arr]. rewrite AL. fin.
+      cbn [op_spec grows o_ret o_dtor with_arr v_arr]. rewrite AL. fin.
     - (* sort_back *)
       destruct (arr_sort_back_spec cmp le_trans le_total a I) as [a3 [E3 [I3 [Z3 [M3 [N3 [P3 A3]]]]]]].
       rewrite E3. cbn [bind].
       eexists. eexists. eexists. split; [reflexivity|].
       split; [apply vec_inv_with; [exact Iv|exact I3|fold a; lia]|]. split; [reflexivity|].
-      cbn [op_spec o_ret o_dtor with_arr v_arr]. rewrite AL. fin.
+      cbn [op_spec grows o_ret o_dtor with_arr v_arr]. rewrite AL. fin.
     - (* push_sort *)
       cbv zeta. setm_cases h v (wadd (a_num a) 1) Iv; try (fold a in Hm1, Hm2, Hz, Hnum, Habs); try (fold a in Hlt).
       + change (A_SUCCESS =? 0) with true. cbv iota.
@@ -270,7 +270,7 @@ Section Steps.
         eexists. eexists. eexists. split; [reflexivity|].
         split; [apply vec_inv_with; [split; assumption|exact I3|cbn [v_arr]; fold a1; lia]|].
         split; [reflexivity|].
-        cbn [op_spec o_ret o_dtor with_arr v_arr vec_ptr_ret]. right.
+        cbn [op_spec grows o_ret o_dtor with_arr v_arr vec_ptr_ret]. right.
         rewrite C3, Hz, fit_idem. exists off, p.
         rewrite Hz in SP. rewrite Hz, fit_idem, Habs in A3. rewrite Habs in U3.
         splits; auto; try lia.
@@ -278,12 +278,12 @@ Section Steps.
         * intro Hsorted. rewrite A3. unfold sp_push_sort. rewrite <- (U3 Hsorted). reflexivity.
       + change (A_OMEMORY =? 0) with false. cbv iota.
         eexists. eexists. eexists. split; [reflexivity|]. split; [exact Iv|]. split; [reflexivity|].
-        cbn [op_spec o_ret o_dtor]. left. rewrite wadd_eq in Hlt by lia. unfold same, null_ptr.
+        cbn [op_spec grows o_ret o_dtor]. left. rewrite wadd_eq in Hlt by lia. unfold same, null_ptr.
         rewrite AL. fin.
     - (* search *)
       rewrite (arr_search_spec cmp a _ I). cbn [bind].
       eexists. eexists. eexists. split; [reflexivity|]. split; [exact Iv|]. split; [reflexivity|].
-      cbn [op_spec o_ret o_dtor]. unfold same. fin.
+      cbn [op_spec grows o_ret o_dtor]. unfold same. fin.
     - (* insert *)
       setm_cases h v (wadd (a_num a) 1) Iv; try (fold a in Hm1, Hm2, Hz, Hnum, Habs); try (fold a in Hlt).
       + change (A_SUCCESS =? 0) with true. cbv iota.
@@ -295,12 +295,12 @@ Section Steps.
         eexists. eexists. eexists. split; [reflexivity|].
         split; [apply vec_inv_with; [split; assumption|exact I3|cbn [v_arr]; fold a1; lia]|].
         split; [reflexivity|].
-        cbn [op_spec o_ret o_dtor with_arr v_arr vec_ptr_ret]. right.
+        cbn [op_spec grows o_ret o_dtor with_arr v_arr vec_ptr_ret]. right.
         rewrite C3, Hz. exists off. rewrite Hz, Hnum in SP. rewrite Hz, Habs in A3.
         rewrite AL, M3. splits; auto; try lia.
       + change (A_OMEMORY =? 0) with false. cbv iota.
         eexists. eexists. eexists. split; [reflexivity|]. split; [exact Iv|]. split; [reflexivity|].
-        cbn [op_spec o_ret o_dtor]. left. rewrite wadd_eq in Hlt by lia. unfold same, null_ptr.
+        cbn [op_spec grows o_ret o_dtor]. left. rewrite wadd_eq in Hlt by lia. unfold same, null_ptr.
         rewrite AL. fin.
     - (* push_fore *)
       setm_cases h v (wadd (a_num a) 1) Iv; try (fold a in Hm1, Hm2, Hz, Hnum, Habs); try (fold a in Hlt).
@@ -313,13 +313,13 @@ Section Steps.
         eexists. eexists. eexists. split; [reflexivity|].
         split; [apply vec_inv_with; [split; assumption|exact I3|cbn [v_arr]; fold a1; lia]|].
         split; [reflexivity|].
-        cbn [op_spec o_ret o_dtor with_arr v_arr vec_ptr_ret]. right.
+        cbn [op_spec grows o_ret o_dtor with_arr v_arr vec_ptr_ret]. right.
         rewrite C3, Hz. exists off. rewrite Hz, N.min_0_l in SP. rewrite Hz, Habs in A3.
         rewrite M3. splits; auto; try lia.
         rewrite A3. unfold sp_insert, clampn. rewrite N.min_0_l. reflexivity.
       + change (A_OMEMORY =? 0) with false. cbv iota.
         eexists. eexists. eexists. split; [reflexivity|]. split; [exact Iv|]. split; [reflexivity|].
-        cbn [op_spec o_ret o_dtor]. left. rewrite wadd_eq in Hlt by lia. unfold same, null_ptr.
+        cbn [op_spec grows o_ret o_dtor]. left. rewrite wadd_eq in Hlt by lia. unfold same, null_ptr.
         rewrite AL. fin.
     - (* push_back *)
       setm_cases h v (wadd (a_num a) 1) Iv; try (fold a in Hm1, Hm2, Hz, Hnum, Habs); try (fold a in Hlt).
@@ -332,18 +332,18 @@ Section Steps.
         eexists. eexists. eexists. split; [reflexivity|].
         split; [apply vec_inv_with; [split; assumption|exact I3|cbn [v_arr]; fold a1; lia]|].
         split; [reflexivity|].
-        cbn [op_spec o_ret o_dtor with_arr v_arr vec_ptr_ret]. right.
+        cbn [op_spec grows o_ret o_dtor with_arr v_arr vec_ptr_ret]. right.
         rewrite C3, Hz. exists off. rewrite Hz, Hnum in SP. rewrite Hz, Habs in A3.
         rewrite AL, M3. splits; auto; try lia.
       + change (A_OMEMORY =? 0) with false. cbv iota.
         eexists. eexists. eexists. split; [reflexivity|]. split; [exact Iv|]. split; [reflexivity|].
-        cbn [op_spec o_ret o_dtor]. left. rewrite wadd_eq in Hlt by lia. unfold same, null_ptr.
+        cbn [op_spec grows o_ret o_dtor]. left. rewrite wadd_eq in Hlt by lia. unfold same, null_ptr.
         rewrite AL. fin.
     - (* remove *)
       destruct (arr_remove_spec a idx I) as [a3 [o3 [E3 [I3 [Z3 [M3 R3]]]]]]. rewrite E3. cbn [bind].
       eexists. eexists. eexists. split; [reflexivity|].
       split; [apply vec_inv_with; [exact Iv|exact I3|fold a; lia]|]. split; [reflexivity|].
-      cbn [op_spec o_ret o_dtor with_arr v_arr]. splits; auto.
+      cbn [op_spec grows o_ret o_dtor with_arr v_arr]. splits; auto.
       destruct R3 as [[N0 [-> ->]]|[Np [N3 [A3 [off [p [-> [SP [Hp C3]]]]]]]]].
       + left. cbn [vec_ptr_ret]. unfold null_ptr. rewrite (abs_nil_iff a I). auto.
       + right. split; [rewrite (abs_nil_iff a I); lia|]. split; [exact A3|].
@@ -352,7 +352,7 @@ Section Steps.
       destruct (arr_remove_spec a 0 I) as [a3 [o3 [E3 [I3 [Z3 [M3 R3]]]]]]. rewrite E3. cbn [bind].
       eexists. eexists. eexists. split; [reflexivity|].
       split; [apply vec_inv_with; [exact Iv|exact I3|fold a; lia]|]. split; [reflexivity|].
-      cbn [op_spec o_ret o_dtor with_arr v_arr]. splits; auto.
+      cbn [op_spec grows o_ret o_dtor with_arr v_arr]. splits; auto.
       destruct R3 as [[N0 [-> ->]]|[Np [N3 [A3 [off [p [-> [SP [Hp C3]]]]]]]]].
       + left. cbn [vec_ptr_ret]. unfold null_ptr. rewrite (abs_nil_iff a I). auto.
       + right. assert (Hne : abs a <> []) by (rewrite (abs_nil_iff a I); lia).
@@ -363,7 +363,7 @@ Section Steps.
       destruct (arr_pull_back_spec a I) as [a3 [o3 [E3 [I3 [Z3 [M3 R3]]]]]]. rewrite E3.
       eexists. eexists. eexists. split; [reflexivity|].
       split; [apply vec_inv_with; [exact Iv|exact I3|fold a; lia]|]. split; [reflexivity|].
-      cbn [op_spec o_ret o_dtor with_arr v_arr]. splits; auto.
+      cbn [op_spec grows o_ret o_dtor with_arr v_arr]. splits; auto.
       destruct R3 as [[N0 [-> ->]]|[Np [N3 [A3 [off [p [-> [SP [Hp C3]]]]]]]]].
       + left. cbn [vec_ptr_ret]. unfold null_ptr. rewrite (abs_nil_iff a I). auto.
       + right. split; [rewrite (abs_nil_iff a I); lia|]. split; [exact A3|].
@@ -379,35 +379,35 @@ Section Steps.
         eexists. eexists. eexists. split; [reflexivity|].
         split; [apply vec_inv_with; [split; assumption|exact I3|cbn [v_arr]; fold a1; lia]|].
         split; [reflexivity|].
-        cbn [op_spec o_ret o_dtor with_arr v_arr]. right.
+        cbn [op_spec grows o_ret o_dtor with_arr v_arr]. right.
         rewrite Hz, Habs in A3. rewrite M3. splits; auto; try lia.
       + change (A_OMEMORY =? 0) with false. cbv iota.
         eexists. eexists. eexists. split; [reflexivity|]. split; [exact Iv|]. split; [reflexivity|].
-        cbn [op_spec o_ret o_dtor]. left. rewrite wadd_eq in Hlt by lia. unfold same.
+        cbn [op_spec grows o_ret o_dtor]. left. rewrite wadd_eq in Hlt by lia. unfold same.
         rewrite AL. fin.
     - (* erase *)
       destruct (arr_erase_spec a idx cnt dt I) as [a3 [rc [d [E3 [I3 [Z3 [M3 R3]]]]]]]. rewrite E3. cbn [bind].
       eexists. eexists. eexists. split; [reflexivity|].
       split; [apply vec_inv_with; [exact Iv|exact I3|fold a; lia]|]. split; [reflexivity|].
-      cbn [op_spec o_ret o_dtor with_arr v_arr]. rewrite AL. splits; auto.
+      cbn [op_spec grows o_ret o_dtor with_arr v_arr]. rewrite AL. splits; auto.
       destruct R3 as [[Hi [-> [A3 ->]]]|[Hi [-> [-> ->]]]]; [left|right]; auto.
     - (* at *)
       eexists. eexists. eexists. split; [reflexivity|]. split; [exact Iv|]. split; [reflexivity|].
-      cbn [op_spec o_ret o_dtor]. unfold same, arr_at. splits; auto.
+      cbn [op_spec grows o_ret o_dtor]. unfold same, arr_at. splits; auto.
       destruct (N.ltb_spec idx (a_mem a)); [apply ptr_ret_spec; assumption|apply ptr_none_spec].
     - (* of *)
       eexists. eexists. eexists. split; [reflexivity|]. split; [exact Iv|]. split; [reflexivity|].
-      cbn [op_spec o_ret o_dtor]. unfold same, arr_of. rewrite AL. cbv zeta. splits; auto.
+      cbn [op_spec grows o_ret o_dtor]. unfold same, arr_of. rewrite AL. cbv zeta. splits; auto.
       destruct (N.ltb_spec (if idx <? HALF then idx else wadd idx (a_num a)) (a_mem a));
         [apply ptr_ret_spec; assumption|apply ptr_none_spec].
     - (* top *)
       eexists. eexists. eexists. split; [reflexivity|]. split; [exact Iv|]. split; [reflexivity|].
-      cbn [op_spec o_ret o_dtor]. unfold same, arr_top. rewrite AL. splits; auto.
+      cbn [op_spec grows o_ret o_dtor]. unfold same, arr_top. rewrite AL. splits; auto.
       destruct (N.eqb_spec (a_num a) 0); [apply ptr_none_spec|].
       rewrite wsub_eq by lia. apply ptr_ret_spec; [assumption|lia].
     - (* end *)
       eexists. eexists. eexists. split; [reflexivity|]. split; [exact Iv|]. split; [reflexivity|].
-      cbn [op_spec o_ret o_dtor]. unfold same, arr_end, null_ptr. rewrite AL. splits; auto.
+      cbn [op_spec grows o_ret o_dtor]. unfold same, arr_end, null_ptr. rewrite AL. splits; auto.
       destruct (v_ptr v); [right|left; reflexivity].
       rewrite wmul_eq; [reflexivity|]. pose proof (off_lt a (a_num a) I Hn). lia.
   Qed.
@@ -503,9 +503,9 @@ Section BufSteps.
       destruct (buf_setm_spec h b mem Ib Hpre)
         as [h1 [b1 [ok [ev [E [[-> [I1 [Z1 [M1 A1]]]]|[-> ->]]]]]]]; rewrite E.
       + eexists. eexists. eexists. split; [reflexivity|]. split; [exact I1|]. split; [reflexivity|].
-        cbn [op_spec o_ret o_dtor]. left. fold a in Z1, A1. fin.
+        cbn [op_spec grows o_ret o_dtor]. left. fold a in Z1, A1. fin.
       + eexists. eexists. eexists. split; [reflexivity|]. split; [exact Ib|]. split; [reflexivity|].
-        cbn [op_spec o_ret o_dtor]. right. fin.
+        cbn [op_spec grows o_ret o_dtor]. right. fin.
     - (* setn *)
       rewrite (arr_dtor_down_spec a n dt I). cbn [bind].
       assert (En : (if a_mem a <? n then a_mem a else n) = N.min n (a_mem a))
@@ -515,7 +515,7 @@ Section BufSteps.
       rewrite E3. cbn [bind].
       eexists. eexists. eexists. split; [reflexivity|].
       split; [apply buf_inv_with; assumption|]. split; [reflexivity|].
-      cbn [op_spec o_ret o_dtor bwith b_arr]. fin.
+      cbn [op_spec grows o_ret o_dtor bwith b_arr]. fin.
     - (* setz *)
       rewrite (arr_dtor_down_spec a 0 dt I). cbn [bind].
       destruct (arr_setz_spec a z I) as [I3 [Z3 [N3 [M3 A3]]]]. cbv zeta in *.
@@ -527,24 +527,24 @@ Section BufSteps.
         assert (a_siz a3 * (a_mem a * a_siz a / a_siz a3) <= a_mem a * a_siz a) by (apply N.mul_div_le; lia).
         rewrite buf_hdr_val in *. lia. }
       split; [reflexivity|].
-      cbn [op_spec o_ret o_dtor bwith b_arr]. rewrite A3, M3, Z3. cbn [N.to_nat skipn]. fin.
+      cbn [op_spec grows o_ret o_dtor bwith b_arr]. rewrite A3, M3, Z3. cbn [N.to_nat skipn]. fin.
     - (* sort *)
       destruct (arr_sort_spec cmp a I) as [a3 [E3 [I3 [Z3 [M3 A3]]]]]. rewrite E3. cbn [bind].
       eexists. eexists. eexists. split; [reflexivity|].
       split; [apply buf_inv_with; assumption|]. split; [reflexivity|].
-      cbn [op_spec o_ret o_dtor bwith b_arr]. fin.
+      cbn [op_spec grows o_ret o_dtor bwith b_arr]. fin.
     - (* sort_fore *)
       destruct (arr_sort_fore_spec cmp le_trans le_total a I) as [a3 [E3 [I3 [Z3 [M3 [N3 [P3 A3]]]]]]].
       rewrite E3. cbn [bind].
       eexists. eexists. eexists. split; [reflexivity|].
       split; [apply buf_inv_with; assumption|]. split; [reflexivity|].
-      cbn [op_spec o_ret o_dtor bwith b_arr]. rewrite AL. fin.
+      cbn [op_spec grows o_ret o_dtor bwith b_arr]. rewrite AL. fin.
     - (* sort_back *)
       destruct (arr_sort_back_spec cmp le_trans le_total a I) as [a3 [E3 [I3 [Z3 [M3 [N3 [P3 A3]]]]]]].
       rewrite E3. cbn [bind].
       eexists. eexists. eexists. split; [reflexivity|].
       split; [apply buf_inv_with; assumption|]. split; [reflexivity|].
-      cbn [op_spec o_ret o_dtor bwith b_arr]. rewrite AL. fin.
+      cbn [op_spec grows o_ret o_dtor bwith b_arr]. rewrite AL. fin.
     - (* push_sort *)
       cbv zeta. destruct (N.ltb_spec (a_num a) (a_mem a)) as [Hroom|Hfull].
       + destruct (arr_push_sort_put cmp le_trans le_total a (fit (a_siz a) key0) I Hroom)
@@ -552,17 +552,17 @@ Section BufSteps.
         rewrite E1. cbn [bind]. rewrite E2. cbn [bind].
         eexists. eexists. eexists. split; [reflexivity|].
         split; [apply buf_inv_with; assumption|]. split; [reflexivity|].
-        cbn [op_spec o_ret o_dtor bwith b_arr vec_ptr_ret]. right.
+        cbn [op_spec grows o_ret o_dtor bwith b_arr vec_ptr_ret]. right.
         rewrite C3, fit_idem. exists off, p. rewrite fit_idem in A3.
         splits; auto; try lia.
         * rewrite M3. exact SP.
         * intro Hsorted. rewrite A3. unfold sp_push_sort. rewrite <- (U3 Hsorted). reflexivity.
       + eexists. eexists. eexists. split; [reflexivity|]. split; [exact Ib|]. split; [reflexivity|].
-        cbn [op_spec o_ret o_dtor]. left. rewrite AL. fin.
+        cbn [op_spec grows o_ret o_dtor]. left. rewrite AL. fin.
     - (* search *)
       rewrite (arr_search_spec cmp a _ I). cbn [bind].
       eexists. eexists. eexists. split; [reflexivity|]. split; [exact Ib|]. split; [reflexivity|].
-      cbn [op_spec o_ret o_dtor]. fin.
+      cbn [op_spec grows o_ret o_dtor]. fin.
     - (* insert *)
       destruct (N.ltb_spec (a_num a) (a_mem a)) as [Hroom|Hfull].
       + destruct (arr_insert_put' a idx x I Hroom)
@@ -570,10 +570,10 @@ Section BufSteps.
         rewrite E1. cbn [bind]. rewrite E2. cbn [bind].
         eexists. eexists. eexists. split; [reflexivity|].
         split; [apply buf_inv_with; assumption|]. split; [reflexivity|].
-        cbn [op_spec o_ret o_dtor bwith b_arr vec_ptr_ret]. right.
+        cbn [op_spec grows o_ret o_dtor bwith b_arr vec_ptr_ret]. right.
         rewrite C3. exists off. rewrite AL, M3. splits; auto; try lia.
       + eexists. eexists. eexists. split; [reflexivity|]. split; [exact Ib|]. split; [reflexivity|].
-        cbn [op_spec o_ret o_dtor]. left. rewrite AL. fin.
+        cbn [op_spec grows o_ret o_dtor]. left. rewrite AL. fin.
     - (* push_fore *)
       destruct (N.ltb_spec (a_num a) (a_mem a)) as [Hroom|Hfull].
       + destruct (arr_insert_put' a 0 x I Hroom)
@@ -581,11 +581,11 @@ Section BufSteps.
         rewrite E1. cbn [bind]. rewrite E2. cbn [bind].
         eexists. eexists. eexists. split; [reflexivity|].
         split; [apply buf_inv_with; assumption|]. split; [reflexivity|].
-        cbn [op_spec o_ret o_dtor bwith b_arr vec_ptr_ret]. right.
+        cbn [op_spec grows o_ret o_dtor bwith b_arr vec_ptr_ret]. right.
         rewrite C3. exists off. rewrite N.min_0_l in SP. rewrite M3. splits; auto; try lia.
         rewrite A3. unfold sp_insert, clampn. rewrite N.min_0_l. reflexivity.
       + eexists. eexists. eexists. split; [reflexivity|]. split; [exact Ib|]. split; [reflexivity|].
-        cbn [op_spec o_ret o_dtor]. left. rewrite AL. fin.
+        cbn [op_spec grows o_ret o_dtor]. left. rewrite AL. fin.
     - (* push_back *)
       destruct (N.ltb_spec (a_num a) (a_mem a)) as [Hroom|Hfull].
       + destruct (arr_inc_put a x I Hroom)
@@ -593,15 +593,15 @@ Section BufSteps.
         rewrite E1. rewrite E2. cbn [bind].
         eexists. eexists. eexists. split; [reflexivity|].
         split; [apply buf_inv_with; assumption|]. split; [reflexivity|].
-        cbn [op_spec o_ret o_dtor bwith b_arr vec_ptr_ret]. right.
+        cbn [op_spec grows o_ret o_dtor bwith b_arr vec_ptr_ret]. right.
         rewrite C3. exists off. rewrite AL, M3. splits; auto; try lia.
       + eexists. eexists. eexists. split; [reflexivity|]. split; [exact Ib|]. split; [reflexivity|].
-        cbn [op_spec o_ret o_dtor]. left. rewrite AL. fin.
+        cbn [op_spec grows o_ret o_dtor]. left. rewrite AL. fin.
     - (* remove *)
       destruct (arr_remove_spec a idx I) as [a3 [o3 [E3 [I3 [Z3 [M3 R3]]]]]]. rewrite E3. cbn [bind].
       eexists. eexists. eexists. split; [reflexivity|].
       split; [apply buf_inv_with; assumption|]. split; [reflexivity|].
-      cbn [op_spec o_ret o_dtor bwith b_arr]. splits; auto.
+      cbn [op_spec grows o_ret o_dtor bwith b_arr]. splits; auto.
       destruct R3 as [[N0 [-> ->]]|[Np [N3 [A3 [off [p [-> [SP [Hp C3]]]]]]]]].
       + left. cbn [vec_ptr_ret]. unfold null_ptr. rewrite (abs_nil_iff a I). auto.
       + right. split; [rewrite (abs_nil_iff a I); lia|]. split; [exact A3|].
@@ -610,7 +610,7 @@ Section BufSteps.
       destruct (arr_remove_spec a 0 I) as [a3 [o3 [E3 [I3 [Z3 [M3 R3]]]]]]. rewrite E3. cbn [bind].
       eexists. eexists. eexists. split; [reflexivity|].
       split; [apply buf_inv_with; assumption|]. split; [reflexivity|].
-      cbn [op_spec o_ret o_dtor bwith b_arr]. splits; auto.
+      cbn [op_spec grows o_ret o_dtor bwith b_arr]. splits; auto.
       destruct R3 as [[N0 [-> ->]]|[Np [N3 [A3 [off [p [-> [SP [Hp C3]]]]]]]]].
       + left. cbn [vec_ptr_ret]. unfold null_ptr. rewrite (abs_nil_iff a I). auto.
       + right. assert (Hne : abs a <> []) by (rewrite (abs_nil_iff a I); lia).
@@ -621,7 +621,7 @@ Section BufSteps.
       destruct (arr_pull_back_spec a I) as [a3 [o3 [E3 [I3 [Z3 [M3 R3]]]]]]. rewrite E3.
       eexists. eexists. eexists. split; [reflexivity|].
       split; [apply buf_inv_with; assumption|]. split; [reflexivity|].
-      cbn [op_spec o_ret o_dtor bwith b_arr]. splits; auto.
+      cbn [op_spec grows o_ret o_dtor bwith b_arr]. splits; auto.
       destruct R3 as [[N0 [-> ->]]|[Np [N3 [A3 [off [p [-> [SP [Hp C3]]]]]]]]].
       + left. cbn [vec_ptr_ret]. unfold null_ptr. rewrite (abs_nil_iff a I). auto.
       + right. split; [rewrite (abs_nil_iff a I); lia|]. split; [exact A3|].
@@ -633,32 +633,32 @@ Section BufSteps.
         rewrite E3. cbn [bind].
         eexists. eexists. eexists. split; [reflexivity|].
         split; [apply buf_inv_with; assumption|]. split; [reflexivity|].
-        cbn [op_spec o_ret o_dtor bwith b_arr]. right. rewrite M3. fin.
+        cbn [op_spec grows o_ret o_dtor bwith b_arr]. right. rewrite M3. fin.
       + eexists. eexists. eexists. split; [reflexivity|]. split; [exact Ib|]. split; [reflexivity|].
-        cbn [op_spec o_ret o_dtor]. left. rewrite AL. fin.
+        cbn [op_spec grows o_ret o_dtor]. left. rewrite AL. fin.
     - (* erase *)
       destruct (arr_erase_spec a idx cnt dt I) as [a3 [rc [d [E3 [I3 [Z3 [M3 R3]]]]]]]. rewrite E3. cbn [bind].
       eexists. eexists. eexists. split; [reflexivity|].
       split; [apply buf_inv_with; assumption|]. split; [reflexivity|].
-      cbn [op_spec o_ret o_dtor bwith b_arr]. rewrite AL. splits; auto.
+      cbn [op_spec grows o_ret o_dtor bwith b_arr]. rewrite AL. splits; auto.
       destruct R3 as [[Hi [-> [A3 ->]]]|[Hi [-> [-> ->]]]]; [left|right]; auto.
     - (* at *)
       eexists. eexists. eexists. split; [reflexivity|]. split; [exact Ib|]. split; [reflexivity|].
-      cbn [op_spec o_ret o_dtor]. unfold same, arr_at. splits; auto.
+      cbn [op_spec grows o_ret o_dtor]. unfold same, arr_at. splits; auto.
       destruct (N.ltb_spec idx (a_mem a)); [apply ptr_ret_spec; assumption|apply ptr_none_spec].
     - (* of *)
       eexists. eexists. eexists. split; [reflexivity|]. split; [exact Ib|]. split; [reflexivity|].
-      cbn [op_spec o_ret o_dtor]. unfold same, arr_of. rewrite AL. cbv zeta. splits; auto.
+      cbn [op_spec grows o_ret o_dtor]. unfold same, arr_of. rewrite AL. cbv zeta. splits; auto.
       destruct (N.ltb_spec (if idx <? HALF then idx else wadd idx (a_num a)) (a_mem a));
         [apply ptr_ret_spec; assumption|apply ptr_none_spec].
     - (* top *)
       eexists. eexists. eexists. split; [reflexivity|]. split; [exact Ib|]. split; [reflexivity|].
-      cbn [op_spec o_ret o_dtor]. unfold same, arr_top. rewrite AL. splits; auto.
+      cbn [op_spec grows o_ret o_dtor]. unfold same, arr_top. rewrite AL. splits; auto.
       destruct (N.eqb_spec (a_num a) 0); [apply ptr_none_spec|].
       rewrite wsub_eq by lia. apply ptr_ret_spec; [assumption|lia].
     - (* end *)
       eexists. eexists. eexists. split; [reflexivity|]. split; [exact Ib|]. split; [reflexivity|].
-      cbn [op_spec o_ret o_dtor]. unfold same, arr_end, null_ptr. rewrite AL. splits; auto.
+      cbn [op_spec grows o_ret o_dtor]. unfold same, arr_end, null_ptr. rewrite AL. splits; auto.
       right. rewrite wmul_eq; [reflexivity|]. pose proof (off_lt a (a_num a) I Hn). lia.
   Qed.
 End BufSteps.
@@ -792,3 +792,304 @@ Section Histories.
     destruct (run cmp w1 ops) as [w2 rs]. cbn [fst snd] in *. split; [constructor; assumption|assumption].
   Qed.
 End Histories.
+
+(** ** the harness comparator (memcmp) is a total order: the order hypotheses are satisfiable *)
+Lemma lex_cmp_antisym : forall a b, lex_cmp b a = CompOpp (lex_cmp a b).
+Proof.
+  induction a as [|x a IH]; intros [|y b]; cbn; try reflexivity.
+  rewrite (N.compare_antisym x y). destruct (x ?= y); cbn; auto.
+Qed.
+
+Lemma lex_le_total : forall a b, VecSpec.le lex_cmp a b \/ VecSpec.le lex_cmp b a.
+Proof.
+  intros a b. unfold VecSpec.le, gtb. rewrite (lex_cmp_antisym a b).
+  destruct (lex_cmp a b); cbn; auto.
+Qed.
+
+Lemma lex_ngt_trans : forall a b c, lex_cmp a b <> Gt -> lex_cmp b c <> Gt -> lex_cmp a c <> Gt.
+Proof.
+  induction a as [|x a IH]; intros [|y b] [|z c]; cbn; try congruence.
+  destruct (N.compare_spec x y); destruct (N.compare_spec y z); destruct (N.compare_spec x z);
+    subst; try lia; try congruence; eauto.
+Qed.
+
+Lemma lex_le_trans : forall a b c, VecSpec.le lex_cmp a b -> VecSpec.le lex_cmp b c -> VecSpec.le lex_cmp a c.
+Proof.
+  intros a b c. unfold VecSpec.le, gtb. intros H1 H2.
+  pose proof (lex_ngt_trans a b c) as T.
+  destruct (lex_cmp a b); destruct (lex_cmp b c); destruct (lex_cmp a c); try reflexivity;
+    try discriminate; exfalso; apply T; congruence.
+Qed.
+
+(* equivalence under memcmp is identity: a sorted permutation is unique, qsort is deterministic *)
+Lemma lex_cmp_eq : forall a b, lex_cmp a b = Eq -> a = b.
+Proof.
+  induction a as [|x a IH]; intros [|y b]; cbn; try congruence.
+  destruct (N.compare_spec x y); try discriminate. intro Hx. subst. f_equal. auto.
+Qed.
+
+(** ** the qsort model yields a sorted permutation *)
+Section IsortSorted.
+  Variable cmp : elem -> elem -> comparison.
+  Notation le := (VecSpec.le cmp).
+  Notation sorted := (VecSpec.sorted cmp).
+  Hypothesis le_trans : forall a b c, le a b -> le b c -> le a c.
+  Hypothesis le_total : forall a b, le a b \/ le b a.
+
+  Lemma ins_sorted_perm : forall x l, Permutation (x :: l) (ins_sorted cmp x l).
+  Proof.
+    induction l as [|y l IH]; cbn; [apply Permutation_refl|].
+    destruct (gtb cmp y x); [apply Permutation_refl|].
+    eapply Permutation_trans; [apply perm_swap|]. apply perm_skip. exact IH.
+  Qed.
+
+  Lemma ins_sorted_sorted : forall x l, sorted l -> sorted (ins_sorted cmp x l).
+  Proof.
+    induction l as [|y l IH]; intro H; cbn.
+    - constructor; constructor.
+    - inversion H as [|? ? Hs Hall]; subst.
+      destruct (gtb cmp y x) eqn:G.
+      + constructor; [exact H|]. constructor.
+        * destruct (le_total x y) as [L|L]; [exact L|unfold VecSpec.le in L; congruence].
+        * rewrite Forall_forall in *. intros z Hz. apply le_trans with y; [|auto].
+          destruct (le_total x y) as [L|L]; [exact L|unfold VecSpec.le in L; congruence].
+      + constructor; [apply IH; exact Hs|].
+        rewrite Forall_forall in *. intros z Hz.
+        apply (Permutation_in _ (Permutation_sym (ins_sorted_perm x l))) in Hz.
+        destruct Hz as [<-|Hz]; [exact G|auto].
+  Qed.
+
+  Lemma isort_sorted_perm : forall l, sorted (isort cmp l) /\ Permutation l (isort cmp l).
+  Proof.
+    induction l as [|x l [S P]]; cbn; [split; constructor|].
+    split; [apply ins_sorted_sorted; exact S|].
+    eapply Permutation_trans; [apply perm_skip; exact P|apply ins_sorted_perm].
+  Qed.
+End IsortSorted.
+
+(** ** corollaries stated by the design: both implementations agree, sorted inserts keep order *)
+Section Corollaries.
+  Variable cmp : elem -> elem -> comparison.
+  Notation le := (VecSpec.le cmp).
+  Notation sorted := (VecSpec.sorted cmp).
+  Hypothesis le_trans : forall a b c, le a b -> le b c -> le a c.
+  Hypothesis le_total : forall a b, le a b \/ le b a.
+
+  (* remove: the scratch-slot path and the in-place rotation give the same sequence and element *)
+  Theorem remove_paths_agree_lemma : forall a1 a2 idx,
+      arr_inv a1 -> arr_inv a2 -> abs a1 = abs a2 -> abs a1 <> [] ->
+      a_num a1 < a_mem a1 -> a_num a2 = a_mem a2 ->
+      exists a1' o1 a2' o2,
+        arr_remove a1 idx = Ok (a1', Some o1) /\ arr_remove a2 idx = Ok (a2', Some o2)
+        /\ abs a1' = abs a2' /\ abs a1' = sp_remove (abs a1) idx
+        /\ content_at a1' o1 (a_mem a1') = Some (sp_removed (abs a1) idx)
+        /\ content_at a2' o2 (a_mem a2') = Some (sp_removed (abs a1) idx).
+  Proof.
+    intros a1 a2 idx I1 I2 E Hne _ _.
+    destruct (arr_remove_spec a1 idx I1) as [a1' [o1 [E1 [_ [_ [_ R1]]]]]].
+    destruct (arr_remove_spec a2 idx I2) as [a2' [o2 [E2 [_ [_ [_ R2]]]]]].
+    destruct R1 as [[N1 _]|[_ [_ [A1 [off1 [p1 [-> [_ [_ C1]]]]]]]]].
+    { exfalso. apply Hne. apply (abs_nil_iff a1 I1). exact N1. }
+    destruct R2 as [[N2 _]|[_ [_ [A2 [off2 [p2 [-> [_ [_ C2]]]]]]]]].
+    { exfalso. apply Hne. rewrite E. apply (abs_nil_iff a2 I2). exact N2. }
+    exists a1', off1, a2', off2. rewrite <- E in A2, C2. splits; auto. congruence.
+  Qed.
+
+  Theorem sort_fore_sorted_lemma : forall a, arr_inv a -> sorted (tl (abs a)) ->
+      exists a', arr_sort_fore cmp a = Ok a' /\ arr_inv a'
+                 /\ abs a' = sp_sort_fore cmp (abs a) /\ sorted (abs a') /\ Permutation (abs a) (abs a').
+  Proof.
+    intros a I Hs.
+    destruct (arr_sort_fore_spec cmp le_trans le_total a I) as [a' [E [I' [_ [_ [_ [P A]]]]]]].
+    exists a'. rewrite (A (or_intror Hs)).
+    destruct (sp_sort_fore_sorted cmp le_trans le_total (abs a) Hs) as [S P'].
+    splits; auto.
+  Qed.
+
+  Theorem sort_back_sorted_lemma : forall a, arr_inv a -> sorted (removelast (abs a)) ->
+      exists a', arr_sort_back cmp a = Ok a' /\ arr_inv a'
+                 /\ abs a' = sp_sort_back cmp (abs a) /\ sorted (abs a') /\ Permutation (abs a) (abs a').
+  Proof.
+    intros a I Hs.
+    destruct (arr_sort_back_spec cmp le_trans le_total a I) as [a' [E [I' [_ [_ [_ [P A]]]]]]].
+    exists a'. rewrite (A (or_intror Hs)).
+    destruct (sp_sort_back_sorted cmp le_trans le_total (abs a) Hs) as [S P'].
+    splits; auto.
+  Qed.
+
+  Theorem push_sort_sorted_lemma : forall a key,
+      arr_inv a -> a_num a < a_mem a -> sorted (abs a) -> fit (a_siz a) key = key ->
+      exists a2 a3 off,
+        arr_push_sort cmp a key = Ok (a2, off) /\ put a2 off key = Ok a3 /\ arr_inv a3
+        /\ abs a3 = sp_push_sort cmp (abs a) key
+        /\ sorted (abs a3) /\ Permutation (key :: abs a) (abs a3).
+  Proof.
+    intros a key I Hroom Hs Hfit.
+    destruct (arr_push_sort_put cmp le_trans le_total a key I Hroom)
+      as [a2 [a3 [off [p [E1 [E2 [I3 [_ [_ [_ [_ [_ [A3 [U3 _]]]]]]]]]]]]]].
+    exists a2, a3, off.
+    assert (A : abs a3 = sp_push_sort cmp (abs a) key).
+    { rewrite A3, Hfit. unfold sp_push_sort. rewrite <- (U3 Hs). reflexivity. }
+    destruct (sp_push_sort_sorted cmp le_trans le_total (abs a) key Hs) as [S P].
+    rewrite A. splits; auto.
+  Qed.
+
+  (* the fixed buffer refuses what does not fit, and only that *)
+  Definition room_needed (o : op) : option N :=
+    match o with
+    | OInsert _ _ | OPushFore _ | OPushBack _ | OPushSort _ => Some 1
+    | OStore _ vs => Some (nlen vs)
+    | _ => None
+    end.
+  Definition refusal (o : op) (r : ret) : Prop :=
+    match o with OStore _ _ => r = RInt A_OBOUNDS | _ => r = RPtr None None end.
+
+  Theorem buf_refuses_lemma : forall h b o need,
+      buf_inv b -> op_pre KBuf (a_siz (b_arr b)) o -> room_needed o = Some need ->
+      exists h' b' r, buf_step cmp h b o = Ok (h', b', r) /\ buf_inv b'
+        /\ (a_mem (b_arr b) < a_num (b_arr b) + need ->
+            refusal o (o_ret r) /\ abs (b_arr b') = abs (b_arr b) /\ a_mem (b_arr b') = a_mem (b_arr b))
+        /\ (a_num (b_arr b) + need <= a_mem (b_arr b) ->
+            ~ refusal o (o_ret r) /\ nlen (abs (b_arr b')) = nlen (abs (b_arr b)) + need).
+  Proof.
+    intros h b o need Ib Hpre Hneed.
+    destruct (buf_step_refines cmp le_trans le_total h b o Ib Hpre) as [h' [b' [r [E [Ib' [Er Sp]]]]]].
+    exists h', b', r. split; [exact E|]. split; [exact Ib'|].
+    pose proof Ib as [I _]. pose proof Ib' as [I' _].
+    pose proof (abs_length (b_arr b) I) as AL. pose proof (abs_length (b_arr b') I') as AL'.
+    pose proof (inv_num (b_arr b') I') as Hn'.
+    destruct o; cbn [room_needed] in Hneed; try discriminate; injection Hneed as <-;
+      cbn [op_spec grows refusal] in *; rewrite AL in Sp.
+    - (* push_sort *)
+      destruct Sp as [[R [Hlt [M [Z [L D]]]]]|[off [p [R [SP [Hp [Z [D [M [L _]]]]]]]]]].
+      + split; intro H; [rewrite L; auto|lia].
+      + assert (Len : nlen (abs (b_arr b')) = a_num (b_arr b) + 1).
+        { rewrite L. unfold nlen. rewrite app_length, firstn_length. cbn [length]. rewrite skipn_length.
+          unfold nlen in AL. lia. }
+        split; intro H; [destruct SP as [_ SP]; lia|]. split; [rewrite R; unfold null_ptr; congruence|lia].
+    - (* insert *)
+      destruct Sp as [[R [Hlt [M [Z [L D]]]]]|[off [R [SP [Z [D [M L]]]]]]].
+      + split; intro H; [rewrite L; auto|lia].
+      + assert (Len : nlen (abs (b_arr b')) = a_num (b_arr b) + 1).
+        { rewrite L. unfold sp_insert, nlen. rewrite app_length, firstn_length. cbn [length]. rewrite skipn_length.
+          unfold clampn, nlen in *. lia. }
+        split; intro H; [destruct SP as [_ SP]; lia|]. split; [rewrite R; congruence|lia].
+    - (* push_fore *)
+      destruct Sp as [[R [Hlt [M [Z [L D]]]]]|[off [R [SP [Z [D [M L]]]]]]].
+      + split; intro H; [rewrite L; auto|lia].
+      + assert (Len : nlen (abs (b_arr b')) = a_num (b_arr b) + 1).
+        { rewrite L. unfold nlen in *. cbn [length]. lia. }
+        split; intro H; [lia|]. split; [rewrite R; congruence|lia].
+    - (* push_back *)
+      destruct Sp as [[R [Hlt [M [Z [L D]]]]]|[off [R [SP [Z [D [M L]]]]]]].
+      + split; intro H; [rewrite L; auto|lia].
+      + assert (Len : nlen (abs (b_arr b')) = a_num (b_arr b) + 1).
+        { rewrite L. unfold nlen in *. rewrite app_length. cbn [length]. lia. }
+        split; intro H; [lia|]. split; [rewrite R; congruence|lia].
+    - (* store *)
+      destruct Sp as [[R [Hlt [M [Z [L D]]]]]|[R [Z [D [M L]]]]].
+      + split; intro H; [rewrite L; auto|lia].
+      + assert (Len : nlen (abs (b_arr b')) = a_num (b_arr b) + nlen vs).
+        { rewrite L. unfold sp_store, nlen. rewrite !app_length, firstn_length, map_length, skipn_length.
+          unfold clampn, nlen in *. lia. }
+        split; intro H; [lia|]. split; [rewrite R; unfold A_SUCCESS, A_OBOUNDS; congruence|lia].
+  Qed.
+End Corollaries.
+
+(** ** the defects of the unpatched code, as statements about its guards *)
+Theorem orig_remove_guard_refuted :
+  exists idx num, idx < W /\ num < W /\ (wadd idx 1 <? num) = true /\ num <= idx.
+Proof. exists (W - 1), 5. rewrite W_val. vm_compute. repeat split; try reflexivity; intro C; discriminate C. Qed.
+
+Theorem fixed_remove_guard_spec : forall idx num, num < W ->
+    (negb (num =? 0) && (idx <? wsub num 1) = true <-> idx + 1 < num).
+Proof.
+  intros idx num H. destruct (N.eqb_spec num 0) as [->|Hn]; cbn [negb andb].
+  - split; [discriminate|lia].
+  - rewrite wsub_eq by lia. rewrite N.ltb_lt. lia.
+Qed.
+
+Theorem orig_erase_end_refuted :
+  exists idx cnt num, idx < W /\ cnt < W /\ num < W /\ idx < num
+                      /\ (wadd idx cnt <? num) = true /\ num < idx + cnt.
+Proof. exists 1, (W - 1), 5. rewrite W_val. vm_compute. repeat split; try reflexivity; intro C; discriminate C. Qed.
+
+Theorem fixed_erase_end_spec : forall idx cnt num, num < W ->
+    (if (idx <? num) && (cnt <? wsub num idx) then wadd idx cnt else num) = N.min (idx + cnt) (N.max idx num)
+    \/ num <= idx.
+Proof.
+  intros idx cnt num H. destruct (N.ltb_spec idx num) as [Hi|Hi]; [left|right; exact Hi].
+  cbn [andb]. rewrite wsub_eq by lia.
+  destruct (N.ltb_spec cnt (num - idx)); [rewrite wadd_eq by lia|]; lia.
+Qed.
+
+(** ** further corollaries *)
+Section More.
+  Variable cmp : elem -> elem -> comparison.
+  Notation le := (VecSpec.le cmp).
+  Notation sorted := (VecSpec.sorted cmp).
+  Hypothesis le_trans : forall a b c, le a b -> le b c -> le a c.
+  Hypothesis le_total : forall a b, le a b \/ le b a.
+
+  Theorem history_ok_init : forall sched limit ops,
+      hist_pre cmp (init_world sched limit) ops -> hist_post cmp (init_world sched limit) ops.
+  Proof. intros. apply (history_ok cmp le_trans le_total); [apply init_world_inv|assumption]. Qed.
+
+  (* binary search + memmove (spare slot) and bubbling by a_swap (full) insert at the same place *)
+  Theorem sort_paths_agree_lemma : forall a1 a2,
+      arr_inv a1 -> arr_inv a2 -> abs a1 = abs a2 -> a_num a1 < a_mem a1 -> a_num a2 = a_mem a2 ->
+      (sorted (tl (abs a1)) ->
+       exists a1' a2', arr_sort_fore cmp a1 = Ok a1' /\ arr_sort_fore cmp a2 = Ok a2' /\ abs a1' = abs a2')
+      /\ (sorted (removelast (abs a1)) ->
+          exists a1' a2', arr_sort_back cmp a1 = Ok a1' /\ arr_sort_back cmp a2 = Ok a2' /\ abs a1' = abs a2').
+  Proof.
+    intros a1 a2 I1 I2 E _ _. split; intro Hs.
+    - destruct (sort_fore_sorted_lemma cmp le_trans le_total a1 I1 Hs) as [a1' [E1 [_ [A1 _]]]].
+      rewrite E in Hs.
+      destruct (sort_fore_sorted_lemma cmp le_trans le_total a2 I2 Hs) as [a2' [E2 [_ [A2 _]]]].
+      exists a1', a2'. splits; auto. congruence.
+    - destruct (sort_back_sorted_lemma cmp le_trans le_total a1 I1 Hs) as [a1' [E1 [_ [A1 _]]]].
+      rewrite E in Hs.
+      destruct (sort_back_sorted_lemma cmp le_trans le_total a2 I2 Hs) as [a2' [E2 [_ [A2 _]]]].
+      exists a1', a2'. splits; auto. congruence.
+  Qed.
+
+  (* every non-null element pointer returned designates a slot of the storage owned afterwards *)
+  Theorem ret_ptr_inside : forall k siz mem l o r d siz' mem' l' off c,
+      op_spec cmp k siz mem l o r d siz' mem' l' -> o <> OEnd -> r = RPtr (Some off) c ->
+      exists p, off = siz' * p /\ p < mem'.
+  Proof.
+    intros k siz mem l o r d siz' mem' l' off c Sp Hne ->.
+    destruct o; cbn [op_spec ptr_spec] in Sp; try congruence.
+    - destruct k; destruct Sp as [[R _]|[R _]]; discriminate R.
+    - destruct k; [destruct Sp as [[R _]|[R _]]; discriminate R|destruct Sp as [R _]; discriminate R].
+    - destruct Sp as [R _]; discriminate R.
+    - destruct Sp as [R _]; discriminate R.
+    - destruct Sp as [R _]; discriminate R.
+    - destruct Sp as [R _]; discriminate R.
+    - destruct Sp as [[R _]|[off' [p [R [[SP1 SP2] [_ [Z _]]]]]]]; [discriminate R|].
+      injection R as -> _. exists p. subst. auto.
+    - destruct Sp as [R _]; discriminate R.
+    - destruct Sp as [[R _]|[off' [R [[SP1 SP2] [Z _]]]]]; [discriminate R|].
+      injection R as -> _. eexists. subst. eauto.
+    - destruct Sp as [[R _]|[off' [R [[SP1 SP2] [Z _]]]]]; [discriminate R|].
+      injection R as -> _. eexists. subst. eauto.
+    - destruct Sp as [[R _]|[off' [R [[SP1 SP2] [Z _]]]]]; [discriminate R|].
+      injection R as -> _. eexists. subst. eauto.
+    - destruct Sp as [_ [Z [_ [[_ [R _]]|[_ [_ [off' [p [R [[SP1 SP2] _]]]]]]]]]]; [discriminate R|].
+      injection R as -> _. exists p. subst. auto.
+    - destruct Sp as [_ [Z [_ [[_ [R _]]|[_ [_ [off' [p [R [[SP1 SP2] _]]]]]]]]]]; [discriminate R|].
+      injection R as -> _. exists p. subst. auto.
+    - destruct Sp as [_ [Z [_ [[_ [R _]]|[_ [_ [off' [p [R [[SP1 SP2] _]]]]]]]]]]; [discriminate R|].
+      injection R as -> _. exists p. subst. auto.
+    - destruct Sp as [[R _]|[R _]]; discriminate R.
+    - destruct Sp as [_ [_ [[_ [R _]]|[_ [R _]]]]]; discriminate R.
+    - destruct Sp as [_ [[Z _] P]]. destruct (idx <? mem); [|discriminate P].
+      destruct P as [off' [R [SP1 SP2]]]. injection R as -> _. exists idx. subst. auto.
+    - destruct Sp as [_ [[Z _] P]].
+      destruct ((if idx <? HALF then idx else wadd idx (nlen l)) <? mem); [|discriminate P].
+      destruct P as [off' [R [SP1 SP2]]]. injection R as -> _. eexists. subst. eauto.
+    - destruct Sp as [_ [[Z _] P]]. destruct (nlen l =? 0); [discriminate P|].
+      destruct P as [off' [R [SP1 SP2]]]. injection R as -> _. eexists. subst. eauto.
+  Qed.
+End More.
